@@ -130,7 +130,12 @@ def compare_texts(a_text, b_text, ties=frozenset(), demand="L2", check_stems=Tru
         return Diff("L0", "instance_counts",
                     _short({(k, A.counts[k], B.counts[k]) for k in A.counts if A.counts[k] != B.counts[k]}))
     if A.keys != B.keys:
-        return Diff("L0", "keys", _short(A.keys ^ B.keys))
+        # inside a frequency-tied group arrival order decides which alternative is promoted; when the promoted one
+        # points to a shape that is later removed as empty, the whole constraint goes with it - so a constraint key
+        # may be missing on one side, but only in a tied group
+        untied = {k for k in (A.keys ^ B.keys) if not _is_tied(ties, k[:3])}
+        if untied:
+            return Diff("L0", "keys", _short(untied))
     if demand == "L0":
         return None
     # ---- L1
